@@ -83,6 +83,25 @@ def gen_layout(rng, n, style=None, maxparts=12):
             "how": rng.choice(("lit", "call", "call", "tuple"))}
 
 
+def gen_seq_big(rng, kind, lo=101, hi=260):
+    """lo..hi elements (from_sequence switches from ceil to floor partition sizes above 100 elements)"""
+    n = rng.randint(lo, hi)
+    return [gen_elem(rng, kind) for _ in range(n)]
+
+
+def gen_layout_many(rng, n, lo=13, hi=70):
+    """explicit partition lengths for lo..hi partitions (zeros welcome): more partitions than the default
+    split_every=8 (two tree levels) and, above 64, than 8*8 (three levels)"""
+    nparts = rng.randint(lo, hi)
+    cuts = sorted(rng.randint(0, n) for _ in range(nparts - 1))
+    b = [0] + cuts + [n]
+    lens = [c - a for a, c in zip(b, b[1:])]
+    if rng.random() < 0.3:
+        lens[1] += lens[0]
+        lens[0] = 0
+    return {"style": "delayed", "lens": lens, "how": rng.choice(("lit", "call"))}
+
+
 def _ident(x):
     return x
 
@@ -108,6 +127,10 @@ def build_bag(seq, layout):
         return db.from_sequence(list(seq), npartitions=layout["n"]), None
     if st == "ps":
         return db.from_sequence(list(seq), partition_size=layout["s"]), None
+    if st == "fs":          # from_sequence without arguments (partition_size 1 up to 100 elements, sqrt rule above)
+        return db.from_sequence(list(seq)), None
+    if st == "range":       # db.range(n, npartitions): seq must be list(range(n))
+        return db.range(len(seq), npartitions=layout["n"]), None
     parts = split_by_lens(seq, layout["lens"])
     how = layout.get("how", "call")
     if how == "lit":
